@@ -15,16 +15,22 @@ Corpora:  (a) every string TLC enumerates with LoadPipe over portable focus alph
               back to text by harness/drivers/docprint.py with seeded choices of styles, indicators, comments, properties,
               directives and break characters; classified by LoadPipe (FromFile);
           (d) the repository's data files, classified by LoadPipe (FromFile).
+Delivery dimension (spec/StreamPlace.tla, enumerated by TLC): every text of (a)-(d) is also delivered in other forms (bytes
+in UTF-8 / UTF-16, text and byte streams under read limits 1, 2, 3, ... - a seeded choice per text, limit 1 always), and
+          (e) placements: every construct of StreamPlace.tla at every character / unit offset around every planned refill
+              boundary of the two readers (Python 4096-unit reads, first buffer after two; LibYAML 16384), behind a padding
+              that is a run of lines or one long token; the short-padded version is classified by LoadPipe.
 """
 import glob, hashlib, json, os, random, zlib
 from .. import tlc, trace, mbt
 from ..common import Verdict, use_repo, REPO, SEED, BUILD, ensure_dir
-from ..drivers import scanmodel as sm, backends as be, watchdog
+from ..drivers import scanmodel as sm, backends as be, watchdog, streamplace as sp
 
 # rows of FocusTable in spec/Scanner.tla used for corpus (a): portable alphabets (no TAB, no non-printables, no surrogate escapes)
 FOCUSES = ['pstruct', 'pstruct8', 'pblock', 'pflow', 'pbreaks', 'pdocs', 'pdquote', 'psquote', 'pescape', 'pyamldir', 'ptagdoc', 'ptag', 'pliteral',
            'pfolded', 'pseqlit', 'pmapblock', 'panchors', 'pindic', 'pcont', 'ptagdflt', 'pindentless', 'pbom', 'pnested']
 LIMIT = 240.0
+PAR = max(1, int(os.environ.get('VERIF_TRACE_PAR', '16') or 16))     # cap on TLC workers and worker processes (shared box)
 
 
 def tla_set(xs):
@@ -35,9 +41,16 @@ def digest(v):
     return hashlib.sha1(json.dumps(v, sort_keys=True, default=str).encode()).hexdigest()[:20]
 
 
-def make_trace(yaml, text, dom, dumper, pairs=be.PAIRS, allow_unsafe=True):
+def make_trace(yaml, text, dom, dumper, pairs=be.PAIRS, allow_unsafe=True, dels=()):
     """-> (trace for TLC, drift) ; projections enter the trace as digests of their canonical JSON form"""
-    cs = be.cases(yaml, text, pairs, allow_unsafe)
+    cs = be.cases(yaml, text, pairs, allow_unsafe) if pairs else []
+    plan = ['str'] if pairs else []
+    if dels:
+        dc, _na = be.delivery_cases(yaml, text, dels)
+        cs += dc
+        for c in dc:
+            if c['del'] not in plan:
+                plan.append(c['del'])
     groups = {}
     for c in cs:
         py = {'o': c['py']['o'], 'cls': c['py']['cls'], 'v': digest(c['py']['v'])}
@@ -45,13 +58,26 @@ def make_trace(yaml, text, dom, dumper, pairs=be.PAIRS, allow_unsafe=True):
         k = json.dumps([py, cc])
         if k in groups:
             groups[k]['name'] += ' ' + c['name']
+            if c['del'] not in groups[k]['dels']:
+                groups[k]['dels'].append(c['del'])
         else:
-            groups[k] = {'name': c['name'], 'py': py, 'c': cc}
+            groups[k] = {'name': c['name'], 'dels': [c['del']], 'py': py, 'c': cc}
     ev = next((c for c in cs if c['name'].startswith('events/')), None)
     drift = None
     if dom and ev is not None and ev['py']['o'] != 'ok':
         drift = 'specification accepts, pure-Python parser raises %s' % ev['py']['cls']
-    return {'dom': bool(dom), 'dumper': bool(dumper), 'cases': list(groups.values())}, drift
+    return {'dom': bool(dom), 'dumper': bool(dumper), 'plan': plan, 'cases': list(groups.values())}, drift
+
+
+def pick_dels(text, dels, extra):
+    """the deliveries of one text: read limit 1 for every stream form that has it (every position of the text is a refill
+    boundary), and a seeded choice of `extra` others (all of them when extra < 0)"""
+    fixed = [d for d in dels if d[1] == 1 and d[0] in ('text', 's8')]
+    rest = [d for d in dels if d not in fixed and d != ('str', sp.FULL)]
+    if extra < 0 or extra >= len(rest):
+        return fixed + rest
+    rnd = random.Random(zlib.crc32(('%d|dels|%s' % (SEED, text)).encode('utf-8', 'surrogatepass')))
+    return fixed + rnd.sample(rest, extra)
 
 
 class Bag:
@@ -81,9 +107,9 @@ def _init():
 
 # ------------------------------------------------------------------ (a) enumerated strings accepted by the specification
 def replay_states(yaml, item):
-    path, a, b, nrep = item
+    path, a, b, nrep, dels, extra = item
     bag = Bag()
-    res = {'states': 0, 'classes': {}, 'texts': 0, 'drift': {}, 'ndrift': 0}
+    res = {'states': 0, 'classes': {}, 'texts': 0, 'drift': {}, 'ndrift': 0, 'deliveries': 0}
     for st in mbt.chunk_states(path, a, b):
         res['states'] += 1
         if not st['cls']:
@@ -96,12 +122,14 @@ def replay_states(yaml, item):
         rnd = random.Random(zlib.crc32(('%d|%s' % (SEED, ' '.join(syms))).encode()))
         for k in range(nrep):
             text, _parts = sm.concretise(syms, rnd)
-            tr, drift = make_trace(yaml, text, True, False, pairs=be.PAIRS if k == 0 else be.PAIRS[1:2])
+            mine = pick_dels(text, dels, extra) if k == 0 else ()
+            tr, drift = make_trace(yaml, text, True, False, pairs=be.PAIRS if k == 0 else be.PAIRS[1:2], dels=mine)
             res['texts'] += 1
+            res['deliveries'] += len(tr['plan']) - 1
             if drift:
                 res['ndrift'] += 1
                 res['drift'].setdefault(drift, {'symbols': syms, 'text': text})
-            bag.add(tr, {'source': 'enum/' + st['focus'], 'text': text, 'symbols': syms})
+            bag.add(tr, {'source': 'enum/' + st['focus'], 'text': text, 'symbols': syms, 'dels': mine})
     res['bag'] = bag.d
     return res
 
@@ -191,19 +219,29 @@ def gen_options(rnd):
     return o
 
 
+ENC_FORM = {'utf-8': 'b8', 'utf-16-le': 'b16le', 'utf-16-be': 'b16be'}
+
+
 def dumper_texts(yaml, rnd, n):
-    """-> [(text, source)] written by the four dumpers; values that a dumper refuses are skipped"""
+    """-> [(text, source)] written by the four dumpers; values that a dumper refuses are skipped.  With the encoding option a
+    dumper writes bytes (UTF-16 with a byte order mark): the text is their decoding, and the source names the byte form in
+    which the loaders must (also) be given it - exactly the bytes the dumper wrote."""
     out = []
     for j in range(n):
         safe = j % 2 == 0
         vals = [gen_value(rnd, safe) for _ in range(rnd.choice([1, 1, 1, 2, 3]))]
         opts = gen_options(rnd)
+        enc = rnd.choice([None, None, None, 'utf-8', 'utf-16-le', 'utf-16-be'])
         for D in (('SafeDumper', 'CSafeDumper') if safe else ('Dumper', 'CDumper')):
             try:
-                t = yaml.dump_all(vals, Dumper=getattr(yaml, D), **opts)
+                t = yaml.dump_all(vals, Dumper=getattr(yaml, D), encoding=enc, **opts)
+                if enc:
+                    raw, t = t, t.decode(enc)
+                    if sp.encode(t, ENC_FORM[enc]) != raw:
+                        raise SystemExit('machinery failure: the %s form of a decoded dumper output is not what the dumper wrote' % ENC_FORM[enc])
             except Exception:             # noqa  (what the dumpers refuse is the business of C02 / C15)
                 continue
-            out.append((t, 'dump/' + D))
+            out.append((t, 'dump/' + D + ('/' + ENC_FORM[enc] if enc else '')))
     return out
 
 
@@ -277,11 +315,11 @@ STRUCT_TOK = ["DS", "DE", "BSS", "BMS", "BEND", "FSS", "FMS", "FSE", "FME", "BEN
 
 def parser_structures(tier):
     """document structures = event streams of all token sequences (<= 5 / 7 structural tokens) that Parser.tla accepts"""
-    r = tlc.run('Parser', cfg='MC_Parser.cfg', tag='C06_struct', dump=True, timeout=3000, coverage=False,
+    r = tlc.run('Parser', workers=PAR, cfg='MC_Parser.cfg', tag='C06_struct', dump=True, timeout=3000, coverage=False,
                 constants={'MaxTokens': 5 if tier == 'quick' else 7, 'Tok': tla_set(STRUCT_TOK), 'History': 'TRUE'})
     tlc.require_ok(r, 'Parser.tla structures')
     seqs = set()
-    for s in mbt.pmap(kinds_work, r.dump):
+    for s in mbt.pmap(kinds_work, r.dump, procs=PAR):
         seqs |= s
     os.remove(r.dump)
     return sorted(seqs), r
@@ -289,17 +327,17 @@ def parser_structures(tier):
 
 # ------------------------------------------------------------------ domain classification of given texts by LoadPipe (FromFile)
 def classify(texts, tag):
-    """-> [(verdict, portable)] decided by TLC on the abstracted texts"""
+    """-> [(verdict, portable)] decided by TLC on the abstracted texts (a list of symbols is taken as it is)"""
     import re
     out = [None] * len(texts)
     states = 0
     d = ensure_dir(os.path.join(BUILD, 'traces'))
     B = 4000
     for b0 in range(0, len(texts), B):
-        part = [sm.abstract(t) for t in texts[b0:b0 + B]]
+        part = [sm.abstract(t) if isinstance(t, str) else list(t) for t in texts[b0:b0 + B]]
         path = os.path.join(d, '%s_%d.json' % (tag, b0))
         json.dump(part, open(path, 'w'))
-        r = tlc.run('LoadPipe', cfg='MC_LoadPipe_file.cfg', tag='%s_%d' % (tag, b0), env={'TRACE_FILE': path}, coverage=False, timeout=3000)
+        r = tlc.run('LoadPipe', workers=PAR, cfg='MC_LoadPipe_file.cfg', tag='%s_%d' % (tag, b0), env={'TRACE_FILE': path}, coverage=False, timeout=3000)
         if not r.ok:
             print(r.out[-3000:])
             raise SystemExit('machinery failure: LoadPipe classification run failed')
@@ -315,13 +353,107 @@ def classify(texts, tag):
 def trace_work(yaml, chunk):
     bag = Bag()
     drift = {}
-    for text, dom, dumper, source in chunk:
+    nd = 0
+    for text, dom, dumper, source, dels in chunk:
         unsafe_ok = 'python' not in text
-        tr, dr = make_trace(yaml, text, dom, dumper, allow_unsafe=unsafe_ok)
+        tr, dr = make_trace(yaml, text, dom, dumper, allow_unsafe=unsafe_ok, dels=dels)
+        nd += len(tr['plan']) - 1
         if dr:
             drift.setdefault(dr, {'text': text[:200], 'source': source})
-        bag.add(tr, {'source': source, 'text': text})
-    return {'bag': bag.d, 'drift': drift, 'n': len(chunk)}
+        bag.add(tr, {'source': source, 'text': text, 'dels': dels})
+    return {'bag': bag.d, 'drift': drift, 'n': len(chunk), 'deliveries': nd}
+
+
+# ------------------------------------------------------------------ (e) the delivery dimension: spec/StreamPlace.tla
+PLACE_CONST = {
+    'quick': {'SmallSteps': '{1, 2, 3, 5, 7}', 'PlaceSteps': '{64, 1000}', 'PyRefills': 1, 'CRefills': 1, 'MaxUnits': 17000,
+              'FullForms': '{"text", "s8"}'},
+    'thorough': {'SmallSteps': '{1, 2, 3, 4, 5, 7, 8, 13}', 'PlaceSteps': '{64, 1000, 4095}', 'PyRefills': 3, 'CRefills': 2, 'MaxUnits': 33000,
+                 'FullForms': '{"text", "s8", "s16le"}'},
+}
+
+
+def stream_plan(tier):
+    """TLC enumerates StreamPlace.tla -> (deliveries [(form, step)], refill model {(be, form, step): [positions]}, placements, r)"""
+    for s_, w in sp.WD.items():
+        if sm.WIDTH.get(s_) != w:
+            raise SystemExit('machinery failure: Wd(%s) of StreamPlace.tla differs from the concretisation table' % s_)
+    r = tlc.run('StreamPlace', workers=PAR, cfg='MC_StreamPlace.cfg', tag='C06_place', dump=True, coverage=True, timeout=3000, constants=PLACE_CONST[tier])
+    if r.violated or not r.ok:
+        print(r.out[-3000:])
+        raise SystemExit('machinery failure: StreamPlace.tla: %s' % (r.violated or r.rc))
+    for a in ('Init', 'Read', 'Place'):
+        if not r.actions.get(a, [0])[0]:
+            raise SystemExit('machinery failure: StreamPlace.tla: action %s never fires' % a)
+    dels, model, places = [], {}, {}
+    n = 0
+    for a, b in mbt.split_dump(r.dump, 1):
+        for st in mbt.chunk_states(r.dump, a, b):
+            n += 1
+            if st['ph'] == 'deliver':
+                if (st['form'], st['step']) not in dels:
+                    dels.append((st['form'], st['step']))
+            elif st['ph'] == 'refill':
+                model.setdefault((st['be'], st['form'], st['step']), {})[st['reads']] = st['pos']
+            else:
+                # the same document for both readers when a position is a boundary of both
+                k = (st['ctx'], tuple(st['con']), st['form'], st['step'], st['pos'], st['off'], st['mid'])
+                places.setdefault(k, st)
+    if n != r.distinct:
+        raise SystemExit('machinery failure: StreamPlace dump/state count mismatch')
+    os.remove(r.dump)
+    return sorted(dels), model, [places[k] for k in sorted(places)], r
+
+
+NVARIANT = {'quick': 2, 'thorough': 5}            # seeded concretisations per construct
+
+
+def realise_all(places, nvar):
+    """-> (docs [(realised placement)], skipped {reason: n})"""
+    docs, skipped = [], {}
+    for st in places:
+        variant = zlib.crc32(('%d|%s' % (SEED, json.dumps([st[k] for k in ('ctx', 'con', 'form', 'step', 'pos', 'off', 'mid')]))).encode()) % nvar
+        d = sp.realise(st, variant, SEED)
+        if 'skip' in d:
+            skipped[d['skip']] = skipped.get(d['skip'], 0) + 1
+        else:
+            d['off'], d['mid'] = st['off'], st['mid']
+            docs.append(d)
+    return docs, skipped
+
+
+def place_work(yaml, chunk):
+    bag = Bag()
+    logs = []
+    for d, dom in chunk:
+        tr, _ = make_trace(yaml, d['text'], dom, False, pairs=(), dels=[(d['form'], d['step'])])
+        bag.add(tr, {'source': 'place/%s@%s+%d.%d' % (d['ctx'], d['pos'], d['off'], d['mid']), 'text': d['text'],
+                     'dels': [(d['form'], d['step'])], 'short': d['short']})
+        if d.get('log'):
+            for b_, loader in (('py', 'BaseLoader'), ('c', 'CBaseLoader')):
+                logs.append((b_, d['form'], d['step'], len(sp.encode(d['text'], d['form'])), be.read_log(yaml, d['text'], d['form'], d['step'], loader)))
+    return {'bag': bag.d, 'n': len(chunk), 'logs': logs}
+
+
+def refill_drift(model, logs):
+    """the read positions StreamPlace.tla predicts against the read() calls the real readers made -> [drift descriptions]"""
+    out = []
+    req = {b_: min(p[1] for (bb, _f, s_), p in model.items() if bb == b_ and s_ >= sp.FULL and 1 in p) for b_ in ('py', 'c')
+           if any(bb == b_ and s_ >= sp.FULL for (bb, _f, s_) in model)}
+    nchecked = 0
+    for b_, form, step, total, log in logs:
+        pred = model.get((b_, form, step))
+        if not pred:
+            continue
+        nchecked += 1
+        for k, pos in sorted(pred.items()):
+            if pos <= total and (len(log) < k or log[k - 1][2] != pos):
+                out.append('%s reader, %s, read limit %s: read %d ends at %s, the model says %d'
+                           % (b_, form, step, k, log[k - 1][2] if len(log) >= k else 'nothing', pos))
+                break
+        if b_ in req and log and log[0][0] != req[b_]:
+            out.append('%s reader asks for %s units, the model says %d' % (b_, log[0][0], req[b_]))
+    return sorted(set(out)), nchecked
 
 
 _T = {}
@@ -341,7 +473,7 @@ def judge_backends(traces, tag, batch=20000):
     for b0 in range(0, len(traces), batch):
         path = os.path.join(d, '%s_%d.json' % (tag, b0))
         json.dump(traces[b0:b0 + batch], open(path, 'w'))
-        r = tlc.run('Trace_Backends', tag='%s_%d' % (tag, b0), env={'TRACE_FILE': path}, coverage=False, timeout=3000)
+        r = tlc.run('Trace_Backends', workers=PAR, tag='%s_%d' % (tag, b0), env={'TRACE_FILE': path}, coverage=False, timeout=3000)
         if not r.ok:
             print(r.out[-3000:])
             raise SystemExit('machinery failure: trace validation run of Trace_Backends failed')
@@ -350,6 +482,8 @@ def judge_backends(traces, tag, batch=20000):
             seen.add(b0 + int(m.group(1)) - 1)
         for m in re.finditer(r'<<"BAD", (\d+), (\d+), "([^"]*)">>', r.out):
             bad.append((b0 + int(m.group(1)) - 1, int(m.group(2)), m.group(3)))
+        if '"UNMET"' in r.out:
+            raise SystemExit('machinery failure: a planned delivery of a trace was not observed (PlanMet of Trace_Backends.tla)')
         os.remove(path)
     if len(seen) != len(traces):
         raise SystemExit('machinery failure: no verdict for %d traces' % (len(traces) - len(seen)))
@@ -364,91 +498,144 @@ def main(tier, replay=None):
     states = trans = 0
     cov = {}
     bag = Bag()
-    tot = {'texts': 0, 'ndrift': 0}
+    tot = {'texts': 0, 'ndrift': 0, 'deliveries': 0}
     classes, drift = {}, {}
     nrep = 1 if tier == 'quick' else 2
-    only = os.environ.get('VERIF_C06_ONLY')           # development aid: comma-separated focus names
-    focuses = [f for f in FOCUSES if not only or f in only.split(',')]
-    r = tlc.run('LoadPipe', cfg='MC_LoadPipe.cfg', tag='C06_enum', dump=True, coverage=False, timeout=3000,
-                constants={'Focuses': tla_set(focuses), 'Thorough': 'FALSE' if tier == 'quick' else 'TRUE'})
-    if r.violated or not r.ok:
-        print(r.out[-3000:])
-        raise SystemExit('machinery failure: LoadPipe.tla: %s' % (r.violated or r.rc))
-    states += r.distinct
-    trans += r.generated
-    t0 = _lap('enum_tlc', t0)
-    items = [(r.dump, a, b, nrep) for a, b in mbt.split_dump(r.dump, max(128, r.distinct // 600))]
-    out = watchdog.run(replay_states, items, procs=16, limit=LIMIT, init=_init)
-    os.remove(r.dump)
-    n = 0
-    for it, o in zip(items, out):
-        if isinstance(o, dict) and o.get('__watchdog__'):
-            raise SystemExit('machinery failure: no result for a chunk of enumerated texts (%s); hangs are judged by C03' % o)
-        n += o['states']
-        for k in tot:
-            tot[k] += o[k]
-        for k, c in o['classes'].items():
-            classes[k] = classes.get(k, 0) + c
-        for k, ex in o['drift'].items():
-            drift.setdefault(k, ex)
-        bag.merge(o['bag'])
-    if n != r.distinct:
-        raise SystemExit('machinery failure: dump/state count mismatch')
-    cov['enumeration'] = {'focuses': focuses, 'states': r.distinct, 'tlc_s': round(r.wall, 1), 'bounds': 'n (quick) / m (thorough) of FocusTable'}
-    t0 = _lap('enum_replay', t0)
+    # the delivery dimension: deliveries, the refill model and the placements, enumerated by TLC from StreamPlace.tla
+    dels, model, places, rs = stream_plan(tier)
+    states += rs.distinct
+    trans += rs.generated
+    extra = 2                   # seeded deliveries per text besides str, text:1 and s8:1 (thorough draws from a larger set)
+    t0 = _lap('place_tlc', t0)
+    parts = set((os.environ.get('VERIF_C06_PARTS') or 'enum,given,place').split(','))      # development aid: corpora to run
+    if 'enum' in parts:
+        only = os.environ.get('VERIF_C06_ONLY')           # development aid: comma-separated focus names
+        focuses = [f for f in FOCUSES if not only or f in only.split(',')]
+        r = tlc.run('LoadPipe', workers=PAR, cfg='MC_LoadPipe.cfg', tag='C06_enum', dump=True, coverage=False, timeout=3000,
+                    constants={'Focuses': tla_set(focuses), 'Thorough': 'FALSE' if tier == 'quick' else 'TRUE'})
+        if r.violated or not r.ok:
+            print(r.out[-3000:])
+            raise SystemExit('machinery failure: LoadPipe.tla: %s' % (r.violated or r.rc))
+        states += r.distinct
+        trans += r.generated
+        t0 = _lap('enum_tlc', t0)
+        items = [(r.dump, a, b, nrep, dels, extra) for a, b in mbt.split_dump(r.dump, max(128, r.distinct // 600))]
+        out = watchdog.run(replay_states, items, procs=PAR, limit=LIMIT, init=_init)
+        os.remove(r.dump)
+        n = 0
+        for it, o in zip(items, out):
+            if isinstance(o, dict) and o.get('__watchdog__'):
+                raise SystemExit('machinery failure: no result for a chunk of enumerated texts (%s); hangs are judged by C03' % o)
+            n += o['states']
+            for k in tot:
+                tot[k] += o[k]
+            for k, c in o['classes'].items():
+                classes[k] = classes.get(k, 0) + c
+            for k, ex in o['drift'].items():
+                drift.setdefault(k, ex)
+            bag.merge(o['bag'])
+        if n != r.distinct:
+            raise SystemExit('machinery failure: dump/state count mismatch')
+        cov['enumeration'] = {'focuses': focuses, 'states': r.distinct, 'tlc_s': round(r.wall, 1), 'bounds': 'n (quick) / m (thorough) of FocusTable'}
+        t0 = _lap('enum_replay', t0)
     rnd = random.Random(SEED)
     quick = tier == 'quick'
-    # (b) dumper outputs (always in the domain)
-    kindseqs, rp = parser_structures(tier)
-    states += rp.distinct
-    trans += rp.generated
-    t0 = _lap('structures_tlc', t0)
-    items = [(t, False, True, src) for t, src in dumper_texts(yaml, rnd, 400 if quick else 12000)]
-    items += [(t, False, True, src) for t, src in event_texts(yaml, rnd, kindseqs, 300 if quick else 8000)]
-    ndump = len(items)
-    # (c) grammar-directed documents, (d) the repository's data files: the specification decides which are in the domain
-    from ..drivers import docprint
-    gtexts = []
-    per = 2 if quick else 16
-    picks = kindseqs
-    for ks in picks:
-        for _ in range(per):
-            gtexts.append((docprint.render(list(ks), rnd), 'grammar'))
-    # the same printer over seeded random structures that are deeper than the ones TLC enumerates (depth <= 3)
-    for _ in range(700 if quick else 12000):
-        gtexts.append((docprint.render(docprint.random_structure(rnd), rnd), 'grammar-deep'))
-    for f in sorted(glob.glob(os.path.join(REPO, 'tests/legacy_tests/data/*'))):
-        try:
-            t = open(f, 'rb').read().decode('utf-8')
-        except (UnicodeDecodeError, OSError):
-            continue
-        if 0 < len(t) <= (1500 if quick else 6000) and not f.endswith(('.py', '.pyc', '.code')):
-            gtexts.append((t, 'data/' + os.path.basename(f)))
-    gtexts = [(t, s_) for t, s_ in gtexts if len(t) <= 4000]
-    t0 = _lap('generate', t0)
-    cls, s3 = classify([t for t, _ in gtexts], 'C06_dom')
-    states += s3
-    for (t, src), (verdict, portable) in zip(gtexts, cls):
-        key = 'given:%s/%s' % (verdict, portable)
-        classes[key] = classes.get(key, 0) + 1
-        items.append((t, verdict == 'accept' and portable, False, src))
-    t0 = _lap('classify_tlc', t0)
-    nch = max(128, len(items) // 40)
-    chunks = [items[i::nch] for i in range(nch)]
-    for ch, o in zip(chunks, watchdog.run(trace_work, chunks, procs=16, limit=LIMIT, init=_init)):
-        if isinstance(o, dict) and o.get('__watchdog__'):
-            raise SystemExit('machinery failure: no result for a chunk of given texts (%s); hangs are judged by C03' % o)
-        bag.merge(o['bag'])
-        for k, ex in o['drift'].items():
-            drift.setdefault(k, ex)
-            tot['ndrift'] += 1
-    cov['dumper_texts'] = ndump
-    cov['given_texts'] = len(gtexts)
-    cov['parser_structures'] = len(kindseqs)
-    if tot['ndrift']:
-        v.note('spec-drift C06/domain: %d texts the specification accepts but the pure-Python parser rejects, e.g. %s'
-               % (tot['ndrift'], json.dumps(list(drift.items())[:3], default=str)[:600]))
-    t0 = _lap('given_replay', t0)
+    if 'given' in parts:
+        # (b) dumper outputs (always in the domain)
+        kindseqs, rp = parser_structures(tier)
+        states += rp.distinct
+        trans += rp.generated
+        t0 = _lap('structures_tlc', t0)
+        items = [(t, False, True, src) for t, src in dumper_texts(yaml, rnd, 400 if quick else 12000)]
+        items += [(t, False, True, src) for t, src in event_texts(yaml, rnd, kindseqs, 300 if quick else 8000)]
+        ndump = len(items)
+        # (c) grammar-directed documents, (d) the repository's data files: the specification decides which are in the domain
+        from ..drivers import docprint
+        gtexts = []
+        per = 2 if quick else 16
+        picks = kindseqs
+        for ks in picks:
+            for _ in range(per):
+                gtexts.append((docprint.render(list(ks), rnd), 'grammar'))
+        # the same printer over seeded random structures that are deeper than the ones TLC enumerates (depth <= 3)
+        for _ in range(700 if quick else 12000):
+            gtexts.append((docprint.render(docprint.random_structure(rnd), rnd), 'grammar-deep'))
+        for f in sorted(glob.glob(os.path.join(REPO, 'tests/legacy_tests/data/*'))):
+            try:
+                t = open(f, 'rb').read().decode('utf-8')
+            except (UnicodeDecodeError, OSError):
+                continue
+            if 0 < len(t) <= (1500 if quick else 6000) and not f.endswith(('.py', '.pyc', '.code')):
+                gtexts.append((t, 'data/' + os.path.basename(f)))
+        gtexts = [(t, s_) for t, s_ in gtexts if len(t) <= 4000]
+        t0 = _lap('generate', t0)
+        cls, s3 = classify([t for t, _ in gtexts], 'C06_dom')
+        states += s3
+        for (t, src), (verdict, portable) in zip(gtexts, cls):
+            key = 'given:%s/%s' % (verdict, portable)
+            classes[key] = classes.get(key, 0) + 1
+            items.append((t, verdict == 'accept' and portable, False, src))
+        t0 = _lap('classify_tlc', t0)
+        # deliveries of every given text; bytes written by a dumper are also delivered as those bytes
+        items = [it + (list(dict.fromkeys(pick_dels(it[0], dels, extra)
+                                          + ([(it[3].split('/')[2], sp.FULL)] if it[3].count('/') == 2 and it[3].startswith('dump/') else []))),)
+                 for it in items]
+        nch = max(128, len(items) // 40)
+        chunks = [items[i::nch] for i in range(nch)]
+        for ch, o in zip(chunks, watchdog.run(trace_work, chunks, procs=PAR, limit=LIMIT, init=_init)):
+            if isinstance(o, dict) and o.get('__watchdog__'):
+                raise SystemExit('machinery failure: no result for a chunk of given texts (%s); hangs are judged by C03' % o)
+            bag.merge(o['bag'])
+            tot['deliveries'] += o['deliveries']
+            for k, ex in o['drift'].items():
+                drift.setdefault(k, ex)
+                tot['ndrift'] += 1
+        cov['dumper_texts'] = ndump
+        cov['given_texts'] = len(gtexts)
+        cov['parser_structures'] = len(kindseqs)
+        if tot['ndrift']:
+            v.note('spec-drift C06/domain: %d texts the specification accepts but the pure-Python parser rejects, e.g. %s'
+                   % (tot['ndrift'], json.dumps(list(drift.items())[:3], default=str)[:600]))
+        t0 = _lap('given_replay', t0)
+    if 'place' in parts:
+        # (e) placements around the refill boundaries; the short-padded version of each is classified by LoadPipe
+        docs, skipped = realise_all(places, NVARIANT[tier])
+        # the short version in symbols: the padding abstracted, the construct as the specification wrote it
+        shorts = sorted({(d['ctx'], d['con']) for d in docs})
+        scls, s4 = classify([sm.abstract(sp.pad(x, sp.SHORT)) + list(c) for x, c in shorts], 'C06_placedom')
+        states += s4
+        sdom = {k: (c[0] == 'accept' and c[1]) for k, c in zip(shorts, scls)}
+        for d in docs:
+            d['dom'] = sdom[(d['ctx'], d['con'])]
+        outside = sorted({d['key'] for d in docs if not d['dom']})
+        logged = set()
+        for d in docs:
+            if d['ascii'] and (d['form'], d['step'], d['pos']) not in logged and d['form'] not in sp.MEM:
+                logged.add((d['form'], d['step'], d['pos']))
+                d['log'] = True
+        t0 = _lap('place_classify_tlc', t0)
+        pitems = [(d, d['dom']) for d in docs]
+        nch = max(64, len(pitems) // 60)
+        chunks = [pitems[i::nch] for i in range(nch)]
+        logs = []
+        for ch, o in zip(chunks, watchdog.run(place_work, chunks, procs=PAR, limit=LIMIT, init=_init)):
+            if isinstance(o, dict) and o.get('__watchdog__'):
+                raise SystemExit('machinery failure: no result for a chunk of placements (%s); hangs are judged by C03' % o)
+            bag.merge(o['bag'])
+            logs += o['logs']
+        rdrift, nlogs = refill_drift(model, logs)
+        if rdrift:
+            v.note('spec-drift C06/refills: the read schedule of StreamPlace.tla differs from the calls the readers make: %s' % '; '.join(rdrift[:4]))
+        if outside:
+            v.note('spec-drift C06/placements: %d constructs of StreamPlace.tla are outside the domain of LoadPipe.tla: %s' % (len(outside), outside[:3]))
+        cov['delivery_dimension'] = {'deliveries': [sp.delname(*d) for d in dels], 'per_text': 'text:1 and s8:1 always + %d seeded others' % extra,
+                                     'delivered_texts_x_deliveries': tot['deliveries'],
+                                     'constants': PLACE_CONST[tier], 'states': rs.distinct, 'placement_states': len(places), 'placements_replayed': len(docs),
+                                     'constructs': len(shorts), 'placements_not_realisable': skipped, 'placements_in_domain': sum(1 for d in docs if d['dom']),
+                                     'boundaries': sorted({(d['form'], d['step'], d['pos']) for d in docs}),
+                                     'refill_model_checked_against_read_logs': nlogs, 'refill_model_drift': rdrift,
+                                     'actions': rs.actions}
+        t0 = _lap('place_replay', t0)
     # judgement
     keys = list(bag.d)
     bad, s2 = judge_backends([bag.d[k][1] for k in keys], 'C06_backends')
@@ -463,16 +650,19 @@ def main(tier, replay=None):
         case = tr['cases'][at - 1]
         first = case['name'].split(' ')[0]
         # diagnostics: recompute the full projections of the failing case (the verdict is TLC's)
-        full = [c for c in be.cases(yaml, meta['text'], allow_unsafe='python' not in meta['text']) if c['name'] == first]
+        full = [c for c in be.cases(yaml, meta['text'], allow_unsafe='python' not in meta['text'], dels=meta.get('dels') or ()) if c['name'] == first]
         where = be.diff_summary(full[0]['py']['v'], full[0]['c']['v']) if full and why == 'projection differs' else ''
-        key = {'why': why, 'case': first.split('/')[0], 'where': where,
+        key = {'why': why, 'case': first.split('/')[0], 'where': where, 'del': case['dels'][0].split(':')[0],
                'py': case['py']['o'] + ':' + case['py']['cls'] + ':' + (full[0]['py'].get('msg', '') if full else ''),
                'c': case['c']['o'] + ':' + case['c']['cls'] + ':' + (full[0]['c'].get('msg', '') if full else '')}
         g = grouped.setdefault(json.dumps(key, sort_keys=True), {'key': key, 'traces': 0, 'texts': 0, 'samples': []})
         g['traces'] += 1
         g['texts'] += cnt
         if len(g['samples']) < 4:
-            g['samples'].append({'text': meta['text'], 'source': meta['source'], 'symbols': meta.get('symbols'), 'cases': case['name'],
+            tx = meta['text']
+            g['samples'].append({'text': tx if len(tx) <= 600 else tx[:60] + ' ...[%d characters]... ' % (len(tx) - 360) + tx[-300:],
+                                 'short_padded_version': meta.get('short'), 'deliveries': case['dels'],
+                                 'source': meta['source'], 'symbols': meta.get('symbols'), 'cases': case['name'][:300],
                                  'py': full[0]['py'] if full else None, 'c': full[0]['c'] if full else None})
     for g in grouped.values():
         v.violation(g['key'], {'distinct_traces': g['traces'], 'texts': g['texts'], 'samples': g['samples']})
